@@ -317,6 +317,15 @@ def doeGamma2B (tB2 theta : F) (X : G) : G := gsub O (actBase O tB2) (O.smul the
 /-- round2R: `sigAB = sigB.Add(MuSig).Sub(HGamma2)` -/
 def doeSigAB (sigB muSig h2 : F) : F := O.sub (O.add sigB muSig) h2
 
+/-! ## BIP-340 parity renormalisation: frost/keygen/round3.go (`if !YSecp.HasEvenY() { privateShare.Negate();
+    verificationShares[i] = y_i.Negate() }`) and frost/sign/round2.go (`if !RSecp.HasEvenY() { d_i.Negate();
+    e_i.Negate(); RShares[l] = RShares[l].Negate() }`). `even` is the value of `HasEvenY()` on the raw point. -/
+
+/-- the conditional `s.Negate()` on a scalar -/
+def tapScalar (even : Bool) (s : F) : F := if even then s else O.neg s
+/-- the conditional `P.Negate()` on a point -/
+def tapPoint (even : Bool) (P : G) : G := if even then P else O.gneg P
+
 /-! ## Derivation: cmp/config Derive, frost/keygen Config.Derive, doerner/keygen Derive -/
 
 /-- `share.Set(old).Add(adjust)` -/
